@@ -619,7 +619,8 @@ PROPS["C01"]["claim"] += (" END TO END (liveness / key agreement): hsRun_live, h
 PROPS["C18"]["proofs"] = PROPS["C18"]["proofs"] + ["Bmc.Proofs.EndToEnd.MetricsC18"]
 PROPS["C18"]["claim"] += (" END TO END: generated_session_SendCommand_accounting, generated_sessionless_SendCommand_accounting (Proofs/EndToEnd/MetricsC18.lean) — the Prometheus calls of "
                           "SendCommand AS TRANSLATED ON THIS RUN, applied to any metric values, satisfy the per-command accounting laws (attempts +1 for this name only, failures +1 exactly "
-                          "when no accepted final response that decodes, retries = closure runs beyond the first, responses per code, other metrics untouched).")
+                          "when no accepted final response that decodes, retries = closure runs beyond the first, responses per code, other metrics untouched); generatedRun_metrics / generated_history_conservation — over ANY history of calls of the translated "
+                          "SendCommand, each made on the connection value the previous one left, the Prometheus log applied to any starting values is the instrumentation model run over the history's events, hence CONSERVATION (attempts = calls per name, failures = failed calls, retries = extra transmissions, responses per code) holds of the translated code.")
 PROPS["C05"]["proofs"] = PROPS["C05"]["proofs"] + ["Bmc.Proofs.EndToEnd.SafeC05"]
 PROPS["C05"]["claim"] += (" END TO END: generated_*_safe (Proofs/EndToEnd/SafeC05.lean; 30 theorems) — every DecodeFromBytes AS TRANSLATED ON THIS RUN, and the cipher-suite record parser, "
                           "from any receiver content on any Go slice, never ends in a panic, a read beyond len or an exhausted loop fuel.")
